@@ -283,7 +283,13 @@ func (w *World) callSitesAll(fn *ssa.Function) (sites []genSite, complete bool) 
 	}
 	ff := w.fnFlow()
 	sites = append(sites, ff.sites[fn]...)
-	return sites, !ff.escaped[fn]
+	complete = !ff.escaped[fn]
+	// an exported function or method can be called from outside the module (and an exported method
+	// through an interface): the calls seen here are not all there are
+	if o := fnObject(fn); fn.Parent() == nil && (o == nil || o.Exported()) {
+		complete = false
+	}
+	return sites, complete
 }
 
 // calleesOfValue: the functions of the module a call of the function value v may run (method values
